@@ -37,6 +37,9 @@ Soft(why) == ~Strict /\ PrintT(<<"REJ", l, Ev.e, ToString(why)>>)
 (* one event: contract allows it -> effect, else reject *)
 TReset == /\ l <= N /\ Ev.e = "Reset"
           /\ IF open THEN Reject({"execution-cut-short"})
+             \* the sizes the layout starts from: the built-in section of a just initialised holder (fresh, or
+             \* re-used through reset() + init()) is empty - no bytes and no virtual size
+             ELSE IF Ev.text.vs # 0 \/ Ev.text.buf # 0 THEN Reject({"initialised-holder-text-section-not-empty"})
              ELSE /\ secs' = << [NewSec(Ev.text.name, Ev.text.order, Ev.text.align) EXCEPT !.off = Ev.text.off] >>
                   /\ phase' = "build" /\ est' = {} /\ atid' = 0
                   /\ open' = TRUE /\ Accept
